@@ -1,7 +1,7 @@
 // `sd` executor (shutdown, C20): a fresh server, clients, the application holding requests, then
 // `drop(server)`; afterwards connection attempts must be refused within a bounded time, the UNIX
 // socket path must be gone, and the requests the application already holds can still be answered.
-// case line:  sd <u|t> <op>,<op>,...
+// case line:  sd <u|t|n> <op>,<op>,...   (n: from_listener on a non-blocking UNIX listener; only w/d/p/x are meaningful)
 //   c<k>  client k connects and sends GET /k          r   the application receives one request and holds it
 //   d     drop the server                             x<k> a new client tries to connect (retries up to 1 s for a refusal)
 //   a     answer every held request; the clients read  p   does the UNIX socket path still exist
@@ -21,7 +21,17 @@ pub fn run_case(f: &[&str]) -> String {
     let dir = std::env::var("TH_SOCK_DIR").unwrap_or_else(|_| "/tmp".into());
     let path = std::path::PathBuf::from(format!("{}/s{}.sock", dir, std::process::id()));
     let _ = std::fs::remove_file(&path);
-    let mut server: Option<Server> = Some(if kind == "t" { Server::http("127.0.0.1:0").unwrap() } else { Server::http_unix(&path).unwrap() });
+    // kind n: a UNIX-socket server built with Server::from_listener from a NON-BLOCKING listener: accept() fails at once
+    // (WouldBlock), the accept loop ends and closes the listener long before the server is dropped
+    let mut server: Option<Server> = Some(if kind == "t" {
+        Server::http("127.0.0.1:0").unwrap()
+    } else if kind == "n" {
+        let l = std::os::unix::net::UnixListener::bind(&path).unwrap();
+        l.set_nonblocking(true).unwrap();
+        Server::from_listener(l, None).unwrap()
+    } else {
+        Server::http_unix(&path).unwrap()
+    });
     let addr = if kind == "t" { Some(server.as_ref().unwrap().server_addr().to_ip().unwrap()) } else { None };
     let connect = |timeout_ms: u64| -> Result<crate::cv::Conn, String> {
         if let Some(a) = addr {
